@@ -23,6 +23,15 @@ type Point struct {
 // It doesn't perform any validation on the result. The Validate method can be
 // used to check the validity of the result if needed.
 func NewPoint(c Coordinates) Point {
+	// Z and M are only meaningful when the coordinates type includes them.
+	// Clear them otherwise, so that the Coordinates method never reports
+	// values for dimensions that the Point doesn't have.
+	if !c.Type.Is3D() {
+		c.Z = 0
+	}
+	if !c.Type.IsMeasured() {
+		c.M = 0
+	}
 	return Point{c, true}
 }
 
